@@ -289,6 +289,13 @@ def _elementwise(p):
         want = numpy.array([float(numpy.asarray(f(float(x), a, b))) for x in arr.ravel()]).reshape(arr.shape)
         scale = max(1.0, float(numpy.nanmax(numpy.abs(want))))
         o.close("elementwise_small_arrays", float(numpy.nanmax(numpy.abs(got - want))) / scale, tol32, sub=name)
+    # ... and whatever the memory layout of the array (Fortran order, transposed / strided views, read-only) and on
+    # one caller-owned array across calls.  (Added after a seeded change walked the array in memory order.)
+    from mc import variants
+    for name in ("square_nonsymmetric", "rectangular", "cube", "square_5x5_cross"):
+        k = variants.check_storage(o, "independent_of_memory_layout", lambda x: f(x, a, b), small[name], tol32, sub=name, kinds=())
+        k += variants.check_reuse(o, "separations", lambda x: f(x, a, b), small[name], tol32, sub=name)
+        o.stat("lib_calls", k)
     big = {
         "vector_70001": (numpy.arange(70001) % 9973) * 0.0031 + 0.001,
         "matrix_300x300": numpy.abs(numpy.subtract.outer(numpy.arange(300) * 0.11, numpy.arange(300) * 0.07 + 0.013)),
